@@ -32,17 +32,20 @@ LEVEL_TEXT = ("Lean theorems for ALL finalizer lists / fn sequences / decision i
               "label edits, foreign finalizer edits, handler & daemon completions, genuine or injected 422, restarts, foreign writes "
               "between any two requests of a cycle): foreign_untouched, order_preserved, block/allow idempotence, allow_after_block, "
               "patch_is_fn_of_tested, foreign_untouched_lts, decision_spec, released_eventually, add_on_match, remove_on_mismatch, "
-              "add_remove_on_match are full theorems. never_early is FALSE of the code (findings F5, F5b): proved are "
-              "never_early_partial / never_early_inv_partial under the exact guard (no 422 on a JSON patch that carries a removal; "
-              "no foreign write between a removal decision and the cycle's own merge patch), the negation never_early_fails and the "
-              "witnesses stale_release_witness / stale_release_via_merge_witness (and the benign mirror stale_add_witness, F5c), all replayed on the real operator every run.")
+              "add_remove_on_match, conflict_carries_nothing, cycle_decides_anew (after repair 1c8f3dd a 422 never leads to a stale "
+              "release/add: conflict_on_release_redecided, conflict_on_add_redecided) are full theorems. never_early is still FALSE "
+              "of the code in one shape (open finding F5b): proved are never_early_partial / never_early_inv_partial under exactly "
+              "that guard (when a removal is queued, no foreign write between the decision and the cycle's own merge patch; any number "
+              "of 422 allowed), the negation never_early_fails and the witness stale_release_via_merge_witness, replayed on the real "
+              "operator every run.")
 THEOREMS = [("Kopf.Props.C06", "Kopf.C06." + n) for n in [
     "foreign_untouched", "order_preserved", "block_spec", "allow_spec", "block_idempotent", "allow_idempotent",
     "allow_after_block", "patch_is_fn_of_tested", "foreign_untouched_lts", "decision_spec", "decision_fns",
-    "never_early_partial", "never_early_inv_partial", "stale_release_witness", "stale_release_via_merge_witness", "stale_add_witness",
+    "never_early_partial", "never_early_inv_partial", "conflict_carries_nothing", "cycle_decides_anew", "guard_of_not_merge",
+    "conflict_on_release_redecided", "conflict_on_add_redecided", "stale_release_via_merge_witness",
     "never_early_fails", "released_eventually", "add_on_match", "remove_on_mismatch", "add_remove_on_match"]]
 TIE_THEOREMS = [("Kopf.Tie.C06", "Kopf.C06.Tie." + n) for n in [
-    "mustBlock_eq", "add_eq", "remove_eq", "early_eq", "release_eq", "effects_eq", "decision_eq"]]
+    "mustBlock_eq", "add_eq", "remove_eq", "early_eq", "release_eq", "effects_eq", "decision_eq", "carry_eq"]]
 RULE = ("D: finalizer lists over an alphabet with the own name 0-3 times, look-alikes, unicode, empty/absent containers, and fn "
         "sequences of length 0-4 through the real functions and Patch.as_json_patch; S: seeded scenarios with 0-2 deletion handlers "
         "(optional/mandatory, label filters, outcome scripts, retries), daemons (obey/cancel/ignore/exit, cancellation timeouts), "
@@ -188,15 +191,48 @@ def extract(ctx: Ctx) -> None:
     early_c = gtr.tr(body[i_early].test)
     effects = [_branch_effect(body[i]) for i in (i_add, i_rem, i_rel)]
 
-    # nobody else in kopf calls the two transformation functions
+    # what survives a rejected JSON patch: process_resource_event filters the remaining fns through _is_finalizer_fn
+    pre = pyextract.find_def(tree, "process_resource_event")
+    pre_stmts = sorted((n for n in ast.walk(pre) if isinstance(n, (ast.Assign, ast.AnnAssign))), key=lambda n: n.lineno)
+    pre_texts = [pyextract.norm(n) for n in pre_stmts]
+    carry_stmts = ["carried_fns = [fn for fn in remaining_patch.fns if not _is_finalizer_fn(fn)]",
+                   "remaining_patch = patches.Patch(fns=carried_fns) if carried_fns else None",
+                   "memory.remaining_patch = remaining_patch"]
+    pos = [pre_texts.index(t) if t in pre_texts else -1 for t in carry_stmts]
+    if -1 in pos or pos != sorted(pos) or sum(1 for t in pre_texts if t.startswith("memory.remaining_patch =")) != 1:
+        raise ExtractError("process_resource_event: the remaining patch is not stored through the `_is_finalizer_fn` filter "
+                           "(memory.remaining_patch would carry the framework's own finalizer edits)")
+    try:
+        isf = pyextract.find_def(tree, "_is_finalizer_fn")
+    except ExtractError:
+        raise ExtractError("processing._is_finalizer_fn not found")
+    ib = pyextract.body_without_docstring(isf)
+    ok = (len(ib) == 1 and isinstance(ib[0], ast.Return) and isinstance(ib[0].value, ast.BoolOp) and isinstance(ib[0].value.op, ast.And)
+          and len(ib[0].value.values) == 2 and pyextract.norm(ib[0].value.values[0]) == "isinstance(fn, functools.partial)")
+    dropped: list[str] = []
+    if ok:
+        cmp = ib[0].value.values[1]
+        ok = (isinstance(cmp, ast.Compare) and pyextract.norm(cmp.left) == "fn.func" and len(cmp.ops) == 1 and isinstance(cmp.ops[0], ast.In)
+              and isinstance(cmp.comparators[0], ast.Tuple))
+        if ok:
+            for e in cmp.comparators[0].elts:
+                t = pyextract.norm(e)
+                if not t.startswith("finalizers.") or t.split(".", 1)[1] not in FN_LEAN:
+                    raise ExtractError(f"_is_finalizer_fn: unexpected member `{t}`")
+                dropped.append(FN_LEAN[t.split(".", 1)[1]])
+    if not ok:
+        raise ExtractError("_is_finalizer_fn is no longer `isinstance(fn, functools.partial) and fn.func in (…)`")
+
+    # nobody else in kopf references the two transformation functions
     users = []
     for path in sorted((ctx.repo / "kopf").rglob("*.py")):
         t = pyextract.parse_file(path)
         for n in ast.walk(t):
             if isinstance(n, ast.Attribute) and n.attr in FN_LEAN or isinstance(n, ast.Name) and n.id in FN_LEAN:
                 users.append(str(path.relative_to(ctx.repo)))
-    if sorted(users) != ["kopf/_core/reactor/processing.py"] * 3:
-        raise ExtractError(f"block_deletion/allow_deletion are referenced outside the three modelled sites: {sorted(set(users))}")
+    in_filter = sum(1 for n in ast.walk(isf) if isinstance(n, ast.Attribute) and n.attr in FN_LEAN)
+    if sorted(users) != ["kopf/_core/reactor/processing.py"] * (3 + in_filter):
+        raise ExtractError(f"block_deletion/allow_deletion are referenced outside the three modelled sites and the carry filter: {sorted(set(users))}")
 
     def eff(e: tuple[str, bool]) -> str:
         return f"({FN_LEAN[e[0]]}, {'true' if e[1] else 'false'})"
@@ -213,7 +249,9 @@ def extract(ctx: Ctx) -> None:
     out += f"def removeEffect : Fn × Bool := {eff(effects[1])}\n"
     out += f"def releaseEffect : Fn × Bool := {eff(effects[2])}\n"
     out += f"def appendSites : Nat := {total_appends}\n"
-    out += f"def earlyReturnsBeforeRelease : Bool := {'true' if i_early < i_pcc < i_rel else 'false'}\n\n"
+    out += f"def earlyReturnsBeforeRelease : Bool := {'true' if i_early < i_pcc < i_rel else 'false'}\n"
+    out += "/-- the fns `_is_finalizer_fn` recognises: dropped from `memory.remaining_patch` after a rejected patch -/\n"
+    out += f"def ownFns : List Fn := [{', '.join(dropped)}]\n\n"
     out += "end Kopf.C06.Extracted\n"
     leanio.write_generated("Kopf/Extracted/C06.lean", out)
 
@@ -828,7 +866,7 @@ def run_scenarios(ctx: Ctx, scenarios: list[dict], names: list[str | None]) -> N
             ctx.compare("C06 decision block", impl, m, wh)
         else:
             view_fins = req[3]
-            sent = m["written"] or bool(m["carried"])
+            sent = m["sent"]
             model = {"sent": sent, "fins": m["fins"] if m["written"] else view_fins, "carried": len(m["carried"])}
             ctx.compare("C06 JSON-patch step", impl, model, wh)
 
